@@ -69,8 +69,12 @@ def check(prop, tier):
         if r.timed_out:
             raise MachineryError("Crc7 %s timed out" % name)
         if not r.ok:
-            # the table is the implementation: a failed ASSUME / invariant here is a property violation
-            what = r.violated or ("ASSUME " + " ".join(e for e in r.errors[:2])) or "model check failed"
+            # the table is the implementation: a false ASSUME / invariant here is a property violation;
+            # anything else TLC complains about is a machinery failure
+            false_assume = [ln for ln in r.out.splitlines() if "Assumption" in ln and "is false" in ln]
+            if not r.violated and not false_assume:
+                raise MachineryError("Crc7 %s run failed:\n%s" % (name, "\n".join(r.out.splitlines()[-25:])))
+            what = r.violated or ("ASSUME " + " ".join(false_assume[:2]))
             tail = [ln for ln in r.out.splitlines() if "Assumption" in ln or "Error" in ln][:5]
             viol.append((name, what, tail))
     for name, what, tail in viol:
@@ -83,7 +87,7 @@ def check(prop, tier):
         p = os.path.join(tlc.workdir("crcdrv"), "o.json")
         run_driver("crc_driver.py", ["--out", p, "--mode", mode, "--seed", sd, "--n", n, "--first-id", first])
         return json.load(open(p))
-    parts = parallel([lambda: drv("all1", 1), lambda: drv("pairs", 1000),
+    parts = parallel([lambda: drv("all1", 1), lambda: drv("pairs", 1000), lambda: drv("long", 90000),
                       lambda: drv("random", 100000, 500 if tier == "quick" else 20000)])
     traces = [t for p in parts for t in p]
     canary = copy.deepcopy(traces[300])
